@@ -271,6 +271,56 @@ fn ctx_ok(s: &[char]) -> bool {
 fn dotted_text(s: &[char]) -> bool {
     s.iter().all(|c| char2(*c)) && ctx_ok(s)
 }
+// ---- the class of ALNUM texts of Proofs/C18LexAlnum.v (phase 5: digits, periods, straight apostrophe), evaluated
+// with the real predicates
+const BAD3: &[char] = &['@', ':', '[', '’', '‘', '＇']; // = C18LexAlnum.bad3
+fn dch(c: char) -> bool {
+    c.is_ascii_digit() && c.is_numeric()
+}
+fn char3(c: char) -> bool {
+    !BAD3.contains(&c) && (wch(c) || dch(c) || ichar(c) || ochar(c))
+}
+/// the look-ahead of the patterns: end of text, or a character that is neither a word character nor a digit
+fn la3(s: &[char], i: usize) -> bool {
+    s.get(i).map(|d| !(wch(*d) || dch(*d))).unwrap_or(true)
+}
+/// Lexer.lex_hostname_token on s[i..] answers (hostname.rs: a run of [A-Za-z0-9.-] that starts with a letter or
+/// digit, is longer than 1, has a period strictly inside and does not end in one) — written out here, NOT a call into
+/// harper: the CLS cases compare this evaluation with the extracted Coq definition
+fn hostname_token_here(s: &[char], i: usize) -> bool {
+    if i >= s.len() || !s[i].is_ascii_alphanumeric() {
+        return false;
+    }
+    let len = s[i..].iter().take_while(|c| host_char(**c)).count();
+    len > 1 && s[i + 1..i + len - 1].contains(&'.') && s[i + len - 1] != '.'
+}
+fn q_plural(s: &[char], i: usize) -> bool {
+    i + 1 < s.len() && s[i].is_ascii_alphanumeric() && matches!(s[i + 1], 's' | 'S') && la3(s, i + 2) && (s[i].is_ascii_digit() || hostname_token_here(s, i))
+}
+fn q_apos(s: &[char], i: usize) -> bool {
+    i + 2 < s.len() && s[i].is_ascii_alphanumeric() && s[i + 1] == '\'' && matches!(s[i + 2], 's' | 'S') && la3(s, i + 3)
+}
+fn q_hex(s: &[char], i: usize) -> bool {
+    i + 2 < s.len() && s[i] == '0' && matches!(s[i + 1], 'x' | 'X') && s[i + 2].is_ascii_hexdigit()
+}
+fn ctx_ok3(s: &[char]) -> bool {
+    (0..s.len()).all(|i| !(q_plural(s, i) || q_apos(s, i) || q_hex(s, i)))
+}
+fn alnum_text(s: &[char]) -> bool {
+    s.iter().all(|c| char3(*c)) && ctx_ok3(s)
+}
+/// which pattern excludes a text of class characters (for the input distribution)
+fn alnum_pattern(s: &[char]) -> &'static str {
+    if (0..s.len()).any(|i| q_hex(s, i)) {
+        "Q_hex(0x+hexdigit)"
+    } else if (0..s.len()).any(|i| q_plural(s, i) && s[i].is_ascii_digit()) {
+        "Q_plural(digit+s)"
+    } else if (0..s.len()).any(|i| q_plural(s, i)) {
+        "Q_plural(letter+s+hostname=FC18c)"
+    } else {
+        "Q_apos(alnum+'s)"
+    }
+}
 /// ickey of Proofs/C18PassesIC.v: the ASCII lower-case letter of an ASCII letter, 0 for any other character
 fn ickey(c: char) -> u32 {
     if c.is_ascii_alphabetic() { c.to_ascii_lowercase() as u32 } else { 0 }
@@ -358,6 +408,8 @@ struct World {
     unstable: std::collections::HashSet<char>,
     /// characters of the dotted class (C18LexDots.char2) that are not case-stable in the sense of case_stable2
     unstable2: std::collections::HashSet<char>,
+    /// characters of the alnum class (C18LexAlnum.char3) that are not case-stable in the sense of case_stable3
+    unstable3: std::collections::HashSet<char>,
 }
 
 /// in bounds, ordered, disjoint, word-like tokens non-empty, and the tokens tile the text
@@ -462,8 +514,8 @@ fn check_text(rep: &mut Report, world: &World, text: &str, origin: &str, r: Opti
         rep.case(&tok_case_line(&toks, &src, dict), &tok_impl_line(&toks));
         rep.count("corr:document_tokens");
         // the classes of the theorems as the harness evaluates them vs the extracted Coq definitions
-        // (C18LexStable.plain_text, C18LexDots.dotted_text) on the dumped Unicode tables
-        rep.case(&format!("CLS | {}", cps(&src)), &format!("C {} {}", plain_text(&src) as u8, dotted_text(&src) as u8));
+        // (C18LexStable.plain_text, C18LexDots.dotted_text, C18LexAlnum.alnum_text) on the dumped Unicode tables
+        rep.case(&format!("CLS | {}", cps(&src)), &format!("C {} {} {}", plain_text(&src) as u8, dotted_text(&src) as u8, alnum_text(&src) as u8));
         rep.count("corr:classes");
     }
     // ---- C18_passes_case_blind on the implementation: the passes of Document::parse on the lexer's token list of
@@ -491,6 +543,37 @@ fn check_text(rep: &mut Report, world: &World, text: &str, origin: &str, r: Opti
                         rep.fail("passes_blind", format!("the passes panic on the ASCII-case-scrambled text ({name}) but not on the text: {m}"), inp.clone());
                     }
                 }
+            }
+        }
+    }
+    // ---- C18_lex_alnum_stable on the implementation: a text of the alnum class (characters only; case stability is
+    // not needed for ASCII scrambles) and its ASCII-case scrambles — which the theorem's closure lemma puts into the
+    // class again — are cut alike by PlainEnglish::parse (spans and kinds) and give the same document tokens
+    if alnum_text(&src) {
+        let upper: Vec<char> = src.iter().map(|c| c.to_ascii_uppercase()).collect();
+        let lower: Vec<char> = src.iter().map(|c| c.to_ascii_lowercase()).collect();
+        let alt: Vec<char> = src.iter().enumerate().map(|(i, c)| if i % 2 == 0 { c.to_ascii_uppercase() } else { c.to_ascii_lowercase() }).collect();
+        let l0 = guarded(|| PlainEnglish.parse(&src)).map(|t| lex_shape(&t));
+        for (name, s2) in [("upper", upper), ("lower", lower), ("alternating", alt)] {
+            if s2 == src {
+                continue;
+            }
+            rep.monitor("lex_alnum_stable:checked", 1);
+            if !alnum_text(&s2) {
+                rep.monitor("lex_alnum_stable:violated", 1);
+                rep.fail("alnum_lex_blind", format!("the ASCII-case scramble ({name}) {:?} of a text of the alnum class is outside the class (ctx_ok3_congr says it is inside)", s2.to_string()), inp.clone());
+                continue;
+            }
+            let l2 = guarded(|| PlainEnglish.parse(&s2)).map(|t| lex_shape(&t));
+            if l0.is_err() != l2.is_err() || (l0.is_ok() && l0.as_ref().ok() != l2.as_ref().ok()) {
+                rep.monitor("lex_alnum_stable:violated", 1);
+                rep.fail("alnum_lex_blind", format!("PlainEnglish::parse cuts a text of the alnum class and its ASCII-case scramble ({name}) {:?} differently (C18_lex_alnum_stable says it does not)", s2.to_string()), inp.clone());
+                continue;
+            }
+            let d2 = guarded(|| Document::new_from_vec(Lrc::new(s2.clone()), &PlainEnglish, dict)).map(|d| lex_shape(d.get_tokens()));
+            if d2.as_ref().ok() != Some(&lex_shape(&toks)) {
+                rep.monitor("lex_alnum_stable:violated", 1);
+                rep.fail("alnum_lex_blind", format!("Document::new gives different spans / kinds for a text of the alnum class and its ASCII-case scramble ({name}) {:?}", s2.to_string()), inp.clone());
             }
         }
     }
@@ -529,8 +612,37 @@ fn check_text(rep: &mut Report, world: &World, text: &str, origin: &str, r: Opti
         (true, true) => "class:plain_and_dotted",
         (true, false) => "class:plain_only(has [A-Za-z][sS]-[host])",
         (false, true) => "class:dotted_only(has a period)",
-        (false, false) => "class:neither(idempotence is oracle-only)",
+        (false, false) => "class:neither_plain_nor_dotted",
     });
+    // the class of C18_str_relex_alnum / C18_str_idempotent_alnum (phase 5): alnum_stable_text — contains both classes
+    // above (theorems plain_alnum / dotted_alnum; observed here)
+    let is_alnum = alnum_text(&src) && !src.iter().any(|c| world.unstable3.contains(c));
+    if (plain_text(&src) || dotted_text(&src)) && !alnum_text(&src) {
+        rep.fail("class_inclusion", format!("{:?} is plain or dotted but not in the alnum class (C18_alnum_contains_plain_dotted says it is)", text), inp.clone());
+    }
+    if is_alnum {
+        rep.count("class3:alnum(C18_str_idempotent_alnum applies)");
+        if !is_plain && !is_dotted {
+            rep.count(if src.iter().any(|c| c.is_ascii_digit()) {
+                "class3:alnum_only:has_digit"
+            } else if src.contains(&'\'') {
+                "class3:alnum_only:has_apostrophe"
+            } else {
+                "class3:alnum_only:refined_hostname_clause"
+            });
+        }
+    } else {
+        let why = if src.iter().any(|c| BAD3.contains(c)) {
+            "curly_apostrophe_at_colon_bracket".to_string()
+        } else if !src.iter().all(|c| char3(*c)) {
+            "other_character(non-ASCII numeric..)".to_string()
+        } else if src.iter().any(|c| world.unstable3.contains(c)) {
+            "not_case_stable_character".to_string()
+        } else {
+            alnum_pattern(&src).to_string()
+        };
+        rep.count(&format!("class3:outside(idempotence is oracle-only):{why}"));
+    }
     if !is_plain && !is_dotted {
         let why = if src.iter().any(|c| c.is_ascii_digit()) { "digit" } else if src.iter().any(|c| BAD2.contains(c)) { "apostrophe_at_colon_bracket" } else if !ctx_ok(&src) { "fc18c_pattern" } else { "other_character" };
         rep.count(&format!("class:neither:{why}"));
@@ -645,6 +757,17 @@ fn check_text(rep: &mut Report, world: &World, text: &str, origin: &str, r: Opti
                 rep.fail("dotted_relex", format!("a DOTTED text re-lexes differently after title-casing: {:?} -> {:?}", text, out), inp.clone());
             }
         }
+        if is_alnum {
+            rep.monitor("H_relex_alnum:checked", 1);
+            if !alnum_text(&outc) {
+                rep.monitor("H_relex_alnum:violated", 1);
+                rep.fail("alnum_relex", "the title case of a text of the alnum class is not in the class (C18_str_relex_alnum says it is)".into(), inp.clone());
+            }
+            if shape(toks2) != shape(&toks) {
+                rep.monitor("H_relex_alnum:violated", 1);
+                rep.fail("alnum_relex", format!("a text of the ALNUM class re-lexes differently after title-casing: {:?} -> {:?}", text, out), inp.clone());
+            }
+        }
         // H_relex_lex (residue of C18_str_idempotent_lexer_partial): the LEXER ALONE cuts the output like the text;
         // C18_str_relex_of_lexer: then the document tokens are the same
         let (l1, l2) = (guarded(|| PlainEnglish.parse(&src)), guarded(|| PlainEnglish.parse(&outc)));
@@ -659,6 +782,8 @@ fn check_text(rep: &mut Report, world: &World, text: &str, origin: &str, r: Opti
                 rep.monitor("H_relex_lex:violated", 1);
                 if is_plain || is_dotted {
                     rep.fail("dotted_relex", format!("the lexer cuts a text of the proved classes and its title case differently: {:?} -> {:?}", text, out), inp.clone());
+                } else if is_alnum {
+                    rep.fail("alnum_relex", format!("the lexer cuts a text of the alnum class and its title case differently: {:?} -> {:?}", text, out), inp.clone());
                 }
             }
         }
@@ -1140,7 +1265,7 @@ fn sweep_chars(rep: &mut Report) {
 /// (a, c) of distinct members with a in the plain class ask: both word characters, or both characters no sub-lexer
 /// claims, and c in the plain class?  The characters a for which some pair fails are NOT case-stable: they are
 /// outside the class of C18_str_idempotent_plain (plain_stable_text); returned, and listed in the report.
-fn unstable_chars(rep: &mut Report) -> (std::collections::HashSet<char>, std::collections::HashSet<char>) {
+fn unstable_chars(rep: &mut Report) -> (std::collections::HashSet<char>, std::collections::HashSet<char>, std::collections::HashSet<char>) {
     use std::collections::HashMap;
     let mut groups: HashMap<(Vec<char>, Vec<char>), Vec<char>> = HashMap::new();
     for cp in 0..0x110000u32 {
@@ -1149,6 +1274,7 @@ fn unstable_chars(rep: &mut Report) -> (std::collections::HashSet<char>, std::co
     }
     let mut bad = std::collections::BTreeSet::new();
     let mut bad2 = std::collections::BTreeSet::new();
+    let mut bad3 = std::collections::BTreeSet::new();
     let mut detail: Vec<String> = vec![];
     let class_of = |c: char| if wchar(c) { "word character" } else if ochar(c) { "unclaimed character" } else if ichar(c) { "blank/punctuation" } else { "other" };
     for g in groups.values() {
@@ -1172,6 +1298,13 @@ fn unstable_chars(rep: &mut Report) -> (std::collections::HashSet<char>, std::co
                     let ok = char2(c) && ((wch(a) && wch(c)) || (ochar(a) && ochar(c)));
                     if !ok {
                         bad2.insert(a);
+                    }
+                }
+                // case_stable3 for the alnum class (digits, period, apostrophe have no variant but themselves)
+                if char3(a) {
+                    let ok = char3(c) && ((wch(a) && wch(c)) || (ochar(a) && ochar(c)));
+                    if !ok {
+                        bad3.insert(a);
                     }
                 }
                 if plain_char(a) && !(plain_char(c) && ((wchar(a) && wchar(c)) || (ochar(a) && ochar(c)))) {
@@ -1199,14 +1332,16 @@ fn unstable_chars(rep: &mut Report) -> (std::collections::HashSet<char>, std::co
     rep.extra.insert("plain_characters_not_case_stable".into(), json!(bad.iter().map(|c| format!("U+{:04X}", *c as u32)).collect::<Vec<_>>()));
     rep.monitor("case_stable2:dotted_characters_that_are_not_case_stable", bad2.len() as u64);
     rep.extra.insert("dotted_characters_not_case_stable".into(), json!(bad2.iter().map(|c| format!("U+{:04X}", *c as u32)).collect::<Vec<_>>()));
+    rep.monitor("case_stable3:alnum_characters_that_are_not_case_stable", bad3.len() as u64);
+    rep.extra.insert("alnum_characters_not_case_stable".into(), json!(bad3.iter().map(|c| format!("U+{:04X}", *c as u32)).collect::<Vec<_>>()));
     detail.sort();
     rep.extra.insert("not_case_stable_pairs".into(), json!(detail));
     // the exceptions are pinned: a change of the crates' Unicode data that adds or removes one is reported
     let expected: Vec<char> = vec!['\u{A7D2}', '\u{A7D3}', '\u{A7D4}', '\u{A7D5}'];
-    if bad.iter().copied().collect::<Vec<char>>() != expected || bad2.iter().copied().collect::<Vec<char>>() != expected {
+    if bad.iter().copied().collect::<Vec<char>>() != expected || bad2.iter().copied().collect::<Vec<char>>() != expected || bad3.iter().copied().collect::<Vec<char>>() != expected {
         rep.count("case_stable:exception_set_changed(was U+A7D2..U+A7D5)");
     }
-    (bad.into_iter().collect(), bad2.into_iter().collect())
+    (bad.into_iter().collect(), bad2.into_iter().collect(), bad3.into_iter().collect())
 }
 
 /// titles aimed at the case-sensitive corners of the lexer (lex_plural_digit's lower-case `s`, `0x`, the decade
@@ -1284,14 +1419,52 @@ fn dotted_title(r: &mut Rng, v: &Vocab) -> String {
     out
 }
 
+/// titles for the ALNUM class of C18LexAlnum.v (phase 5): words mixed with decimal / exponent numbers, number suffixes,
+/// digit-led and digit-ending words, hex-like and decade-like material, contractions, possessives and periods; a good
+/// half avoids the three excluded patterns, so C18_str_idempotent_alnum applies and alnum_relex / alnum_lex_blind
+/// are exercised; the rest sits on the patterns (oracle-only, where FC18c lives)
+fn alnum_title(r: &mut Rng, v: &Vocab) -> String {
+    const NUM: &[&str] = &[
+        "1", "2nd", "3RD", "1st", "21ST", "4th", "11Th", "1.5", "1.5e3", "2E5", "1e", "1e+5", "1E-5", "3.", ".5", "0xg", "0x", "0X", "0x1f", "0X1F", "0xAb", "1990s", "1990S", "1990", "90s", "5s",
+        "5S", "5's", "7'S", "3d", "3D", "mp3", "MP3s", "v1.2", "a1", "1a", "10-12", "1,000", "$5", "5%", "no.1", "1.2.3", "12e", "E5", "e5", "1e5x", "2.e3", "007", "1sa", "1's1", "x0x1",
+    ];
+    const GLUE: &[&str] = &[" ", " ", " ", " ", ". ", ", ", "-", ".", "'", "'s ", "'S ", "n't ", "'re ", "'LL ", "' ", " '", "s ", "s.", "s-", "'d ", "'sa", "1", "2 "];
+    let n = r.range(2, 6);
+    let mut out = String::new();
+    for i in 0..n {
+        if i > 0 {
+            out.push_str(r.s(GLUE));
+        }
+        let w = match r.below(8) {
+            0 => r.s(SPECIAL).to_string(),
+            1 => r.pick(&v.proper).clone(),
+            2 => r.pick(&v.any).clone(),
+            3 => r.s(&["us", "as", "is", "it", "a", "i", "b", "x", "e", "E", "s", "ss", "isn", "don", "o", "rock", "é", "Ünï"]).to_string(),
+            4 => r.pick(&v.prep_det).clone(),
+            _ => r.s(NUM).to_string(),
+        };
+        let w: String = w.chars().filter(|c| !BAD3.contains(c)).collect();
+        out.push_str(&match r.below(4) {
+            0 => w.to_uppercase(),
+            1 => w.to_lowercase(),
+            2 => gen::capitalize(&w.to_lowercase()),
+            _ => w,
+        });
+    }
+    if r.chance(1, 3) {
+        out.push('.');
+    }
+    out
+}
+
 fn main() {
     let (a, corpus) = hv::cli();
     let mut rep = Report::new(&a.out);
     rep.rule = "titles: corpus; generated titles (common words, special lower-case words at first/middle/last position, proper nouns from the curated dictionary in every casing and with curly apostrophes, numbers, hyphenated, non-ASCII incl. Kelvin/Angstrom signs, long s, dotted capital I, punctuation, leading/trailing whitespace, empty); shared document generator; Markdown front-end (correspondence + hull length only); synthetic token lists over synthetic dictionaries (correspondence only); thorough adds every curated dictionary word in 5 casings alone and in mid-title position. non-trivial = distinct title with >= 2 word-like tokens and >= 1 changed character".into();
     // the Unicode tables of the lexer model, before any end-to-end case (corpus and replays included)
     dump_unicode(&mut rep);
-    let (unstable, unstable2) = unstable_chars(&mut rep);
-    let world = World { dict: FstDictionary::curated(), e2e_sample: 16, e2e_counter: std::cell::Cell::new(0), unstable, unstable2 };
+    let (unstable, unstable2, unstable3) = unstable_chars(&mut rep);
+    let world = World { dict: FstDictionary::curated(), e2e_sample: 16, e2e_counter: std::cell::Cell::new(0), unstable, unstable2, unstable3 };
     for c in &corpus {
         replay_input(&mut rep, &world, c);
     }
@@ -1326,6 +1499,10 @@ fn main() {
     for _ in 0..a.scale(1500, 30000) {
         let t = dotted_title(&mut r, &vocab);
         check_text(&mut rep, &world, &t, "dotted", None);
+    }
+    for _ in 0..a.scale(1500, 30000) {
+        let t = alnum_title(&mut r, &vocab);
+        check_text(&mut rep, &world, &t, "alnum", None);
     }
     for _ in 0..a.scale(500, 6000) {
         let t = gen::any_text(&mut r);
